@@ -660,6 +660,9 @@ def least_index(ex, st, fi, g, default, line):
             yield from _least_range(ex, st1, fi, var, conds, a, b, step,
                                     default, line)
             return
+        if isinstance(itv, tuple) and itv and itv[0] == '$reversed' and \
+                isinstance(itv[1], TokList):
+            itv = list_reversed(ex, st1, itv[1], line)
         if isinstance(itv, TokList):
             yield from _first_elem(ex, st1, fi, var, node.elt, conds, itv,
                                    default, line)
@@ -1415,6 +1418,12 @@ def listcomp(ex, node, st, fi):
         raise Unsupported('nested comprehension at %d' % line)
     gen = node.generators[0]
     for st1, itv in ex.ev(gen.iter, st, fi):
+        if isinstance(itv, OptVal):
+            # iterating over None raises TypeError
+            ex.prove(st1, 'safe:iterate-none@%d' % line, Not(itv.isnone),
+                     line)
+            st1.assume(Not(itv.isnone))
+            itv = itv.val
         if isinstance(itv, tuple) and itv and itv[0] == '$range':
             yield from _comp_range(ex, node, gen, st1, fi, itv, line)
             continue
